@@ -7,8 +7,7 @@ HERE = os.path.dirname(os.path.dirname(os.path.abspath(__file__)))
 logs = ""
 for f in glob.glob("/tmp/confirm*.log"):
     logs += open(f).read()
-NOT_EXPECTED = {"C08_A": "rows written by the current serialize always carry 'size'/'mtime'; the change breaks loading rows of an OLDER release - a "
-                         "compatibility statement that is in no property (DESIGN.md 7.6)"}
+NOT_EXPECTED = {}      # (C08_A, a `.get` turned into `[...]` in a loader, was not expected to be reported until the values rows of the decision table existed)
 
 # round 2 (variants C, D) was written after the rules of round 1 existed and was first run as a held-out measurement:
 # these were NOT reported by any check at that time and led to new rules (DESIGN.md 7.6)
@@ -30,6 +29,9 @@ ROUND6_MISSED_AT_FIRST = {"C05_L", "C08_K", "C11_K", "C12_K", "C17_L", "C18_L"}
 # ... and these were reported at first, but not by the check of the property they were written for (fixed afterwards by attribution / a rule of their own)
 ROUND6_NOT_BY_OWN_AT_FIRST = {"C01_K", "C02_K", "C02_L", "C03_L", "C04_K", "C04_L", "C06_K", "C06_L", "C07_K", "C07_L", "C09_L", "C10_L", "C11_L", "C12_L", "C13_L",
                               "C14_K", "C14_L"}
+
+# round 7 (variants M, N): the brief asked for changed VALUES (arguments, defaults, callees, constants, copies), not edited conditions
+ROUND7_MISSED_AT_FIRST = {"C01_N", "C13_M", "C13_N", "C14_M", "C15_M", "C15_N", "C17_M", "C18_M", "C20_M"}
 
 def run(d):
     patch = os.path.join(d, "patch.diff")
@@ -59,15 +61,15 @@ with ThreadPoolExecutor(8) as ex:
         sect = ""
         if m:
             rest = notes[m.start():]
-            other = {"A": "B", "B": "A", "C": "D", "D": "C", "E": "F", "F": "E", "G": "H", "H": "G", "I": "J", "J": "I", "K": "L", "L": "K"}[var]
+            other = {"A": "B", "B": "A", "C": "D", "D": "C", "E": "F", "F": "E", "G": "H", "H": "G", "I": "J", "J": "I", "K": "L", "L": "K", "M": "N", "N": "M"}[var]
             m2 = re.search(r"(?im)^#+.*variant\s+%s\b.*$|^\*\*variant\s+%s\b" % (other, other), rest[10:])
             sect = rest[: (m2.start() + 10) if m2 else 2500][:2500].strip()
         conf = [l for l in logs.splitlines() if l.startswith("%s %s demo_clean" % (prop, var))]
         fired = sorted(k for k, v in (res or {}).items() if v[0] == 1)
         files = sorted(set(re.findall(r"^\+\+\+ b/(\S+)", open(os.path.join(d, "patch.diff")).read(), re.M)))
         meta = {
-            "id": sid, "breaks_property": prop, "variant": var, "files_changed": files, "round": {"A": 1, "B": 1, "C": 2, "D": 2, "E": 3, "F": 3, "G": 4, "H": 4, "I": 5, "J": 5, "K": 6, "L": 6}[var],
-            "reported_when_first_run_held_out": (sid not in ROUND2_MISSED_AT_FIRST) if var in "CD" else ((sid not in ROUND3_MISSED_AT_FIRST) if var in "EF" else ((sid not in ROUND4_MISSED_AT_FIRST) if var in "GH" else ((sid not in ROUND5_MISSED_AT_FIRST) if var in "IJ" else ((sid not in ROUND6_MISSED_AT_FIRST) if var in "KL" else None)))),
+            "id": sid, "breaks_property": prop, "variant": var, "files_changed": files, "round": {"A": 1, "B": 1, "C": 2, "D": 2, "E": 3, "F": 3, "G": 4, "H": 4, "I": 5, "J": 5, "K": 6, "L": 6, "M": 7, "N": 7}[var],
+            "reported_when_first_run_held_out": (sid not in ROUND2_MISSED_AT_FIRST) if var in "CD" else ((sid not in ROUND3_MISSED_AT_FIRST) if var in "EF" else ((sid not in ROUND4_MISSED_AT_FIRST) if var in "GH" else ((sid not in ROUND5_MISSED_AT_FIRST) if var in "IJ" else ((sid not in ROUND6_MISSED_AT_FIRST) if var in "KL" else ((sid not in ROUND7_MISSED_AT_FIRST) if var in "MN" else None))))),
             "written_by": "independent sub-agent given only the property text and its own worktree (no access to /verif)",
             "mechanism_and_what_it_needs_to_manifest": sect or "see NOTES.md",
             "what_was_run": ["tools/confirm_seed.sh (fresh worktree of /repo HEAD): demo on the unmodified tree, demo with the patch applied, pinned test-suite with the patch applied",
